@@ -80,7 +80,7 @@ def run(ctx):
     R.assumptions = ['tokio mpsc: Ready(None) only when closed and drained']
     R.info['configs'] = ['full']
     poll = F.trait_method('Future', 'client::RequestDispatch', 'poll')
-    acc, fields = find_cell_accessors(F, P, 'client::RequestDispatch', lambda t: t.startswith('std::option::Option<'))
+    acc, fields = find_cell_accessors(F, P, 'client::RequestDispatch', lambda t: t.startswith('std::option::Option<') and 'ChannelError' in t)
     cell = sorted(fields)[0] if fields else None
     cells = [((cell, 'None'),), ((cell, ('Some', STAR)),)] if cell else [()]
     bpn = F.trait_method('Stream', 'server::BaseChannel', 'poll_next')
@@ -144,3 +144,6 @@ def run(ctx):
     # (5) the deadline source the channel waits for is exhausted as soon as nothing is in flight: no removal leaves its timer behind
     from .C11 import removal_pairing
     removal_pairing(ctx, 'C10.timers', 'server')
+    # (6) cancellations for abandoned calls are transmitted before the close: the guard's request to cancel is always queued (what is queued is drained, clause 1)
+    from .common import cancel_always_enqueues
+    cancel_always_enqueues(ctx, 'C10.cancelq')
